@@ -82,7 +82,7 @@ func setup(repo, verif, z3 string, poolSize int) (*env, error) {
 	if _, err := exec.InstallHarness(filepath.Join(verif, "harness"), scratch, false); err != nil {
 		return e, err
 	}
-	prog, err := exec.Load(scratch)
+	prog, err := exec.LoadTolerant(scratch)
 	if err != nil {
 		return e, err
 	}
